@@ -121,7 +121,9 @@ Qed.
 Example C18_date_examples :
   civil 59 = mkC 1970 3 1 /\ civil 789 = mkC 1972 2 29 /\ civil 790 = mkC 1972 3 1 /\
   civil 10956 = mkC 1999 12 31 /\ civil 11016 = mkC 2000 2 29 /\ civil 11017 = mkC 2000 3 1 /\
-  civil 47540 = mkC 2100 2 28 /\ civil 47541 = mkC 2100 3 1 /\ civil 157113 = mkC 2400 2 29 /\
+  next_day (mkC 2100 2 28) = mkC 2100 3 1 /\ next_day (mkC 2400 2 28) = mkC 2400 2 29 /\
+  next_day (mkC 2096 2 28) = mkC 2096 2 29 /\ next_day (mkC 9999 12 30) = mkC 9999 12 31 /\
+  next_day (mkC 1999 12 31) = mkC 2000 1 1 /\ next_day (mkC 2021 4 30) = mkC 2021 5 1 /\
   weekday_count 18847 = 0 /\ civil 18847 = mkC 2021 8 8 /\
   http_date 1628437415 =   (* "Sun, 08 Aug 2021 15:43:35 GMT" *)
     Ok [83; 117; 110; 44; 32; 48; 56; 32; 65; 117; 103; 32; 50; 48; 50; 49; 32; 49; 53; 58; 52; 51; 58; 51; 53; 32;
